@@ -9,8 +9,9 @@ Sub-properties
               tolerance (fsolve xtol = 1.49e-8 relative);
           (b) every fluctuation and covariance gradient equals RefObs.combine of the operands with the gradient
               -(df/dd_i)/(df/dx) from hand-written partial derivatives (1e-10);
-          (c) the result equals the observable obtained by applying the explicit inverse with Obs arithmetic (1e-6,
-              the accuracy with which the root itself is known to the library).
+          (c) the result equals the observable obtained by applying the explicit inverse directly (overloaded Obs
+              arithmetic for scalar d, one derived_observable call for vector d), up to what the accepted inaccuracy of
+              the root does to the gradient.
   quad    integrate.quad(f, p, a, b) with any non-empty subset of parameters and limits being observables
           (polynomials, exponentials, trigonometric, 1/x and Gaussian-type integrands; finite, reversed, coinciding
           and infinite limits; the same observable as parameter and limit): value = F(b) - F(a) from the analytic
@@ -34,18 +35,21 @@ RULE = ('Hypothesis-generated calls of find_root and integrate.quad. Observable 
         'layout (1-2 ensembles x 1-2 replicas, identical / nested / overlapping / disjoint configuration sets, missing '
         'replicas, optional shared covariance inputs) or are pure covariance observables; their central values are '
         'moved into the domain of the function family by adding a constant. Roots: 10 monotone families, d passed as '
-        'Obs / list / tuple / array, guesses inside the monotone domain. Integrals: 11 integrand families with '
-        'closed-form antiderivative, every subset of (parameters, lower limit, upper limit) observable. A case is '
+        'Obs / list / tuple / array, guesses inside the monotone domain. Integrals: 15 integrand families (3 of them '
+        'parameter-free) with closed-form antiderivative, every subset of (parameters, lower limit, upper limit) observable. A case is '
         'non-trivial if d is a vector (roots) or if at least two observable arguments live on different sets of '
         'ensembles or an observable limit occurs together with an observable parameter (integrals); the scipy '
         'sub-property counts cases that pass a keyword argument or an infinite limit; distinct = distinct spec hash.')
 ASSUMPTIONS = ['RefObs.combine is the statement of C01 (vlib/refobs.py); operands enter through RefObs.from_pe',
                'analytic partial derivatives, inverses and antiderivatives are self-checked by finite differences at import',
                'root value: |x - x*| <= 1e-7|x*| + 1e-10 (fsolve stops at a relative step of 1.49e-8); fluctuations of the '
-               'root 1e-10 with partials taken at the returned root; explicit inverse 1e-6',
+               'root 1e-10 with partials taken at the returned root; explicit inverse: 1e-9 + the change of the gradient under a '
+               'shift of the root by the accepted inaccuracy',
                'integral: value and each gradient entry within 10 x the error estimate QUADPACK reports for that integrand '
                '(recomputed here with scipy on the analytic derivative) + 1e-11 x integral of the absolute integrand + '
-               '1e-14 x antiderivative magnitude; cases where fsolve itself reports non-convergence are skipped',
+               '1e-14 x magnitude of the terms of the antiderivative (rounding of the reference); on infinite ranges '
+               'additionally 10 x the requested accuracy max(epsabs, epsrel |I|), because QUADPACK underestimates its error there',
+               'root cases where fsolve itself reports non-convergence are skipped',
                'replica means of roots and integrals are not compared (not stated by the property)']
 
 
@@ -62,7 +66,8 @@ def _anp():
 # dom   per component a list of closed intervals for the central value
 # pe    f(anp, x, D, k) as handed to find_root (D(i) = i-th component of d)
 # f, fx, fd, root   plain-number versions: function, df/dx, [df/dd_i], closed-form inverse
-# inv   the inverse written with overloaded Obs arithmetic (np = numpy, acting on Obs)
+# inv   the explicit inverse as a function of (m, d, k): m = numpy when applied to observables with overloaded arithmetic,
+#       m = autograd.numpy inside one derived_observable call
 
 POW_K = [2, 3, 0.5, 1.5, -1, -2, 2.0, 4, -0.5]
 
@@ -80,67 +85,79 @@ ROOT = {
                 pe=lambda anp, x, D, k: x ** k - D(0),
                 f=lambda x, v, k: x ** k - v[0], fx=lambda x, v, k: k * x ** (k - 1), fd=lambda x, v, k: [-1.0],
                 root=lambda v, k: v[0] ** (1.0 / k),
-                inv=lambda d, k: d[0] ** (1.0 / k)),
+                inv=lambda m, d, k: d[0] ** (1.0 / k)),
     'exp': dict(n=1, kind='real', dom=[[(0.1, 8.0)]],
                 pe=lambda anp, x, D, k: anp.exp(x) - D(0),
                 f=lambda x, v, k: np.exp(x) - v[0], fx=lambda x, v, k: np.exp(x), fd=lambda x, v, k: [-1.0],
                 root=lambda v, k: math.log(v[0]),
-                inv=lambda d, k: np.log(d[0])),
+                inv=lambda m, d, k: m.log(d[0])),
     'log': dict(n=1, kind='pos', dom=[[(-2.0, 2.0)]],
                 pe=lambda anp, x, D, k: anp.log(x) - D(0),
                 f=lambda x, v, k: np.log(x) - v[0], fx=lambda x, v, k: 1.0 / x, fd=lambda x, v, k: [-1.0],
                 root=lambda v, k: math.exp(v[0]),
-                inv=lambda d, k: np.exp(d[0])),
+                inv=lambda m, d, k: m.exp(d[0])),
     'tanh': dict(n=1, kind='real', dom=[[(-0.9, 0.9)]],
                  pe=lambda anp, x, D, k: anp.tanh(x) - D(0),
                  f=lambda x, v, k: np.tanh(x) - v[0], fx=lambda x, v, k: 1.0 / np.cosh(x) ** 2, fd=lambda x, v, k: [-1.0],
                  root=lambda v, k: math.atanh(v[0]),
-                 inv=lambda d, k: np.arctanh(d[0])),
+                 inv=lambda m, d, k: m.arctanh(d[0])),
     'cubic': dict(n=1, kind='real', dom=[[(-5.0, 5.0)]],
                   pe=lambda anp, x, D, k: x ** 3 + x - D(0),
                   f=lambda x, v, k: x ** 3 + x - v[0], fx=lambda x, v, k: 3 * x * x + 1.0, fd=lambda x, v, k: [-1.0],
                   root=lambda v, k: _cardano(1.0, -v[0]),
-                  inv=lambda d, k: _inv_cubic(1.0, d[0])),
+                  inv=lambda m, d, k: _inv_cubic(m, 1.0, d[0])),
     'gcubic': dict(n=3, kind='real', dom=[[(0.3, 3.0)], [(0.3, 3.0)], [(-4.0, 4.0)]], alias=[(0, 1)],
                    pe=lambda anp, x, D, k: D(0) * x ** 3 + D(1) * x - D(2),
                    f=lambda x, v, k: v[0] * x ** 3 + v[1] * x - v[2], fx=lambda x, v, k: 3 * v[0] * x * x + v[1],
                    fd=lambda x, v, k: [x ** 3, x, -1.0],
                    root=lambda v, k: _cardano(v[1] / v[0], -v[2] / v[0]),
-                   inv=lambda d, k: _inv_cubic(d[1] / d[0], d[2] / d[0])),
+                   inv=lambda m, d, k: _inv_cubic(m, d[1] / d[0], d[2] / d[0])),
     'linear2': dict(n=2, kind='real', dom=[[(-3.0, 3.0)], [(-3.0, -0.3), (0.3, 3.0)]],
                     pe=lambda anp, x, D, k: D(0) + D(1) * x,
                     f=lambda x, v, k: v[0] + v[1] * x, fx=lambda x, v, k: v[1], fd=lambda x, v, k: [1.0, x],
                     root=lambda v, k: -v[0] / v[1],
-                    inv=lambda d, k: -d[0] / d[1]),
+                    inv=lambda m, d, k: -d[0] / d[1]),
     'powscale': dict(n=2, kind='pos', dom=[[(0.3, 3.0)], [(0.2, 5.0)]], alias=[(0, 1)],
                      pe=lambda anp, x, D, k: D(0) * x ** k - D(1),
                      f=lambda x, v, k: v[0] * x ** k - v[1], fx=lambda x, v, k: v[0] * k * x ** (k - 1),
                      fd=lambda x, v, k: [x ** k, -1.0],
                      root=lambda v, k: (v[1] / v[0]) ** (1.0 / k),
-                     inv=lambda d, k: (d[1] / d[0]) ** (1.0 / k)),
+                     inv=lambda m, d, k: (d[1] / d[0]) ** (1.0 / k)),
     'expscale': dict(n=3, kind='real', dom=[[(0.3, 3.0)], [(-2.0, -0.3), (0.3, 2.0)], [(0.2, 5.0)]], alias=[(0, 2)],
                      pe=lambda anp, x, D, k: D(0) * anp.exp(D(1) * x) - D(2),
                      f=lambda x, v, k: v[0] * np.exp(v[1] * x) - v[2], fx=lambda x, v, k: v[0] * v[1] * np.exp(v[1] * x),
                      fd=lambda x, v, k: [np.exp(v[1] * x), v[0] * x * np.exp(v[1] * x), -1.0],
                      root=lambda v, k: math.log(v[2] / v[0]) / v[1],
-                     inv=lambda d, k: np.log(d[2] / d[0]) / d[1]),
+                     inv=lambda m, d, k: m.log(d[2] / d[0]) / d[1]),
     'tanh2': dict(n=2, kind='real', dom=[[(0.3, 2.0)], [(-0.9, 0.9)]], alias=[(0, 1)],
                   pe=lambda anp, x, D, k: anp.tanh(D(0) * x) - D(1),
                   f=lambda x, v, k: np.tanh(v[0] * x) - v[1], fx=lambda x, v, k: v[0] / np.cosh(v[0] * x) ** 2,
                   fd=lambda x, v, k: [x / np.cosh(v[0] * x) ** 2, -1.0],
                   root=lambda v, k: math.atanh(v[1]) / v[0],
-                  inv=lambda d, k: np.arctanh(d[1]) / d[0]),
+                  inv=lambda m, d, k: m.arctanh(d[1]) / d[0]),
 }
 
 
-def _inv_cubic(P, Q):
+def _inv_cubic(m, P, Q):
     """root of x^3 + P x - Q = 0 (P > 0) through overloaded arithmetic: Cardano with u > 0"""
-    u = (Q / 2 + np.sqrt(Q * Q / 4 + P * P * P / 27)) ** (1.0 / 3)
+    u = (Q / 2 + m.sqrt(Q * Q / 4 + P * P * P / 27)) ** (1.0 / 3)
     return u - P / (3 * u)
+
+
+EPS = float(np.finfo(np.float64).eps)
 
 
 def in_dom(v, dom):
     return any(lo <= v <= hi for lo, hi in dom)
+
+
+def in_doms(v, doms):
+    return all(in_dom(v, d) for d in doms)
+
+
+def arg_doms(doms, idx, alias):
+    """per built operand the domains of all argument slots it fills (two slots if it is used twice)"""
+    return [[doms[i]] + ([doms[alias[1]]] if alias and i == alias[0] else []) for i in idx]
 
 
 def polish(fam, x, v, k):
@@ -173,7 +190,7 @@ def _selfcheck_roots():
                     num = (fam['f'](x, vp, k) - fam['f'](x, vm, k)) / (2 * h)
                     assert abs(num - fam['fd'](x, v, k)[i]) <= 1e-6 * max(1.0, abs(num)), (name, k, 'fd', i)
                 # the overloaded inverse, evaluated on plain numbers, is the same function
-                assert abs(float(fam['inv'](v, k)) - x) <= 1e-7 * max(1.0, abs(x)), (name, k, 'inv')
+                assert abs(float(fam['inv'](np, v, k)) - x) <= 1e-7 * max(1.0, abs(x)), (name, k, 'inv')
 
 
 _selfcheck_roots()
@@ -182,9 +199,14 @@ _selfcheck_roots()
 # -------------------------------------------------------------------------------------------------
 # operands shared by roots and integrals
 
+def chance(k):
+    """True with probability 1/k (st.integers would favour the boundary values)"""
+    return st.sampled_from([True] + [False] * (k - 1))
+
+
 def dom_value(dom):
     parts = [gen.fl(lo, hi) for lo, hi in dom]
-    corners = [c for c in (0.0, 1.0, -1.0, 2.0, 0.5) if in_dom(c, dom)]
+    corners = [c for c in (0.0, 1.0, -1.0, 2.0, 0.5, -EPS) if in_dom(c, dom)]
     if corners:
         parts.append(st.sampled_from(corners))
     return st.one_of(*parts)
@@ -198,7 +220,7 @@ def operand_specs(draw, targets, tier):
     ops = draw(gen.related_obs_specs(n, ens_max=2, rep_max=2, lmin=8, lmax=lmax, sigma=gen.fl(0.001, 0.3),
                                      mean=[st.just(float(t)) for t in targets]))
     for i in range(n):
-        if draw(st.integers(0, 11)) == 0:
+        if draw(chance(12)):
             d = draw(st.integers(1, 2))
             B = [[draw(gen.fl(-1, 1)) for _ in range(d)] for _ in range(d)]
             cov = [[sum(B[r][k] * B[c][k] for k in range(d)) + (0.1 if r == c else 0.0) for c in range(d)] for r in range(d)]
@@ -209,17 +231,17 @@ def operand_specs(draw, targets, tier):
 
 def make_operands(specs, targets, raw, doms):
     """Build the observables; the central value is the raw one if that lies in the family's domain and the case
-    asks for it, otherwise it is moved to the target by adding a constant."""
+    asks for it, otherwise it is moved to the target by adding a constant.  doms: per operand a list of domains."""
     out, labs = [], set()
     for sp, t, r, dom in zip(specs, targets, raw, doms):
         o = build_obs(sp)
         v = float(o.value)
-        if r and in_dom(v, dom):
+        if r and in_doms(v, dom):
             labs.add('operand:raw')
         else:
             o = o + float(float(t) - v)
             labs.add('operand:shifted')
-            if not in_dom(float(o.value), dom):   # rounding at the edge of an interval
+            if not in_doms(float(o.value), dom):   # rounding at the edge of an interval
                 raise Skip('central value outside the domain after the shift')
         if not sp['chains']:
             labs.add('operand:covariance_only')
@@ -245,8 +267,12 @@ def root_case(draw, tier):
     n = fam['n']
     k = draw(st.sampled_from(POW_K)) if 'pow' in name else None
     targets = [draw(dom_value(dom)) for dom in fam['dom']]
+    excluded = []
+    if targets[0] == -EPS and findings.is_open('F-C09-2'):
+        targets[0] = 0.0      # known finding: central value of d[0] exactly -eps gives a NaN root
+        excluded.append('F-C09-2')
     alias = None
-    if fam.get('alias') and draw(st.integers(0, 5)) == 0:
+    if fam.get('alias') and draw(chance(5)):
         s, d = draw(st.sampled_from(fam['alias']))
         if in_dom(targets[s], fam['dom'][d]):
             alias = [s, d]
@@ -262,7 +288,7 @@ def root_case(draw, tier):
         g = {'off': draw(gen.fl(-0.5, 0.5))}
     g['mode'] = draw(st.sampled_from(['float', 'float', 'int', 'default', 'exact']))
     return {'fam': name, 'k': k, 'targets': targets, 'alias': alias, 'ops': ops,
-            'raw': [draw(st.booleans()) for _ in idx], 'dform': dform, 'guess': g}
+            'raw': [draw(st.booleans()) for _ in idx], 'dform': dform, 'guess': g, 'excluded': excluded}
 
 
 def root_oracle(spec):
@@ -274,7 +300,7 @@ def root_oracle(spec):
     n, k = fam['n'], spec['k']
     alias = spec.get('alias')
     idx = [i for i in range(n) if not (alias and i == alias[1])]
-    obs, labs = make_operands(spec['ops'], [spec['targets'][i] for i in idx], spec['raw'], [fam['dom'][i] for i in idx])
+    obs, labs = make_operands(spec['ops'], [spec['targets'][i] for i in idx], spec['raw'], arg_doms(fam['dom'], idx, alias))
     ds = [None] * n
     for i, o in zip(idx, obs):
         ds[i] = o
@@ -293,7 +319,8 @@ def root_oracle(spec):
     mode = g['mode']
     near = (lambda t: 0.55 * xs <= t <= 1.9 * xs) if fam['kind'] == 'pos' else (lambda t: abs(t - xs) <= 0.6)
     if mode == 'int':
-        if near(round(guess)):
+        # (an integer start value with a negative integer power is rejected by numpy inside scipy: outside 'guess : float')
+        if near(round(guess)) and not (isinstance(k, int) and k < 0):
             guess = int(round(guess))
         else:
             mode = 'float'
@@ -352,16 +379,30 @@ def root_oracle(spec):
     rf = combine(lambda v: xr, grad, refs, value=xr)
     cmp_obs(rf, res, what + ' vs -(df/dd)/(df/dx) * fluctuations of d', rtol=1e-10, check_rv=False)
 
-    # (c) the explicit inverse applied with Obs arithmetic
-    inv = fam['inv'](ds, k)
+    # (c) the explicit inverse applied directly: overloaded arithmetic for a single observable; one derived_observable
+    # call for a vector d (a chain of binary operations is a different statement when replicas are missing, see C01)
+    if n == 1:
+        inv = fam['inv'](np, ds, k)
+    else:
+        inv = pe.derived_observable(lambda x, **kw: fam['inv'](anp, x, k), ds)
     require(isinstance(inv, pe.Obs), 'oracle problem: inverse is not an Obs')
     require(abs(float(inv.value) - xr) <= 1e-7 * abs(xs) + 1e-10, what + ': central value differs from the explicit inverse',
             xr, float(inv.value))
+    # the library knows the root only to the solver's tolerance: allow what a shift of the root by that much does to the gradient
+    dx = 1e-7 * abs(xs) + 1e-10
+    gp = [-float(t) / float(fam['fx'](xs + dx, vals, k)) for t in fam['fd'](xs + dx, vals, k)]
+    gm = [-float(t) / float(fam['fx'](xs - dx, vals, k)) for t in fam['fd'](xs - dx, vals, k)]
+    # ... and rounding in the differentiated closed form (terms of the size of the largest gradient entry cancel)
+    err = [abs(u - w) + 1e-9 * abs(g0) + 1e-12 * max(abs(t) for t in grad) for u, w, g0 in zip(gp, gm, grad)]
+    rerr = combine(lambda v: xr, err, refs, value=xr)
     ri = RefObs.from_pe(inv)
     ri.value = xr
-    ri.mag, ri.cgmag = dict(rf.mag), dict(rf.cgmag)      # scale of the summed terms (they may cancel, e.g. log(d0/d0))
-    cmp_obs(ri, res, what + ' vs explicit inverse applied to d', rtol=1e-6, atol_scale=1e-8, check_rv=False)
+    atol = 1e-12
+    ri.mag = {c: rf.mag[c] + rerr.mag[c] / atol for c in rf.mag}          # scale of the summed terms (they may cancel)
+    ri.cgmag = {c: rf.cgmag[c] + rerr.cgmag[c] / atol for c in rf.cgmag}
+    cmp_obs(ri, res, what + ' vs explicit inverse applied to d', rtol=1e-9, atol_scale=atol, check_rv=False)
 
+    labs.update('excluded:' + x for x in spec.get('excluded', []))
     labs.update(['fam:' + name, 'dform:' + spec['dform'], 'n_d:%d' % n])
     if k is not None:
         labs.add('k:%r' % k)
@@ -382,7 +423,10 @@ def _poly(n):
                 f=lambda p, x: sum(p[k] * x ** k for k in range(n)),
                 F=lambda p, x: sum(p[k] * x ** (k + 1) / (k + 1) for k in range(n)),
                 df=lambda p, x: [x ** k for k in range(n)],
-                G=lambda p, x: [x ** (k + 1) / (k + 1) for k in range(n)])
+                G=lambda p, x: [x ** (k + 1) / (k + 1) for k in range(n)],
+                Bf=lambda p, x: sum(abs(p[k] * x ** k) for k in range(n)),
+                BF=lambda p, x: sum(abs(p[k] * x ** (k + 1) / (k + 1)) for k in range(n)),
+                BG=lambda p, x: [abs(x ** (k + 1) / (k + 1)) for k in range(n)])
 
 
 def _expdec(inf):
@@ -392,7 +436,10 @@ def _expdec(inf):
                 f=lambda p, x: p[0] * np.exp(-p[1] * x),
                 F=lambda p, x: -p[0] / p[1] * np.exp(-p[1] * x),
                 df=lambda p, x: [np.exp(-p[1] * x), -x * p[0] * np.exp(-p[1] * x)],
-                G=lambda p, x: [-np.exp(-p[1] * x) / p[1], p[0] * (x / p[1] + 1 / p[1] ** 2) * np.exp(-p[1] * x)])
+                G=lambda p, x: [-np.exp(-p[1] * x) / p[1], p[0] * (x / p[1] + 1 / p[1] ** 2) * np.exp(-p[1] * x)],
+                Bf=lambda p, x: abs(p[0] * np.exp(-p[1] * x)),
+                BF=lambda p, x: abs(p[0] / p[1] * np.exp(-p[1] * x)),
+                BG=lambda p, x: [abs(np.exp(-p[1] * x) / p[1]), abs(p[0]) * (abs(x / p[1]) + 1 / p[1] ** 2) * np.exp(-p[1] * x)])
 
 
 def _gauss(inf):
@@ -403,13 +450,20 @@ def _gauss(inf):
                 F=lambda p, x: -p[0] / (2 * p[1]) * np.exp(-p[1] * x ** 2),
                 df=lambda p, x: [x * np.exp(-p[1] * x ** 2), -p[0] * x ** 3 * np.exp(-p[1] * x ** 2)],
                 G=lambda p, x: [-np.exp(-p[1] * x ** 2) / (2 * p[1]),
-                                p[0] * np.exp(-p[1] * x ** 2) * (1 / (2 * p[1] ** 2) + x ** 2 / (2 * p[1]))])
+                                p[0] * np.exp(-p[1] * x ** 2) * (1 / (2 * p[1] ** 2) + x ** 2 / (2 * p[1]))],
+                Bf=lambda p, x: abs(p[0] * x * np.exp(-p[1] * x ** 2)),
+                BF=lambda p, x: abs(p[0] / (2 * p[1]) * np.exp(-p[1] * x ** 2)),
+                BG=lambda p, x: [abs(np.exp(-p[1] * x ** 2) / (2 * p[1])),
+                                 abs(p[0]) * np.exp(-p[1] * x ** 2) * (1 / (2 * p[1] ** 2) + x ** 2 / (2 * abs(p[1])))])
 
 
-def _nopar(pe, f, F):
-    return dict(np=0, pdom=[], ldom=[(-3.0, 3.0)], pe=pe, f=f, F=F, df=lambda p, x: [], G=lambda p, x: [])
+def _nopar(pe, f, F, Bf, BF):
+    return dict(np=0, pdom=[], ldom=[(-3.0, 3.0)], pe=pe, f=f, F=F, df=lambda p, x: [], G=lambda p, x: [],
+                Bf=Bf, BF=BF, BG=lambda p, x: [])
 
 
+# Bf / BF / BG: magnitude of the terms summed in f / F / G with |sin|, |cos| replaced by 1.  They scale the rounding
+# allowance of the analytic reference itself (terms cancel on tiny intervals and near zeros of the trigonometric factors).
 QUAD = {
     'poly1': _poly(1), 'poly2': _poly(2), 'poly3': _poly(3), 'poly4': _poly(4),
     'expdec': _expdec(False), 'expdec_inf': _expdec(True),
@@ -420,7 +474,10 @@ QUAD = {
                    F=lambda p, x: -p[0] / p[1] * np.cos(p[1] * x) + p[2] * x,
                    df=lambda p, x: [np.sin(p[1] * x), p[0] * x * np.cos(p[1] * x), 1.0],
                    G=lambda p, x: [-np.cos(p[1] * x) / p[1],
-                                   p[0] * (x * np.sin(p[1] * x) / p[1] + np.cos(p[1] * x) / p[1] ** 2), x]),
+                                   p[0] * (x * np.sin(p[1] * x) / p[1] + np.cos(p[1] * x) / p[1] ** 2), x],
+                   Bf=lambda p, x: abs(p[0]) + abs(p[2]),
+                   BF=lambda p, x: abs(p[0] / p[1]) + abs(p[2] * x),
+                   BG=lambda p, x: [abs(1 / p[1]), abs(p[0]) * (abs(x / p[1]) + 1 / p[1] ** 2), abs(x)]),
     'cosmix': dict(np=3, pdom=[[(-3.0, 3.0)], [(-3.0, -0.2), (0.2, 3.0)], [(-3.0, 3.0)]], ldom=[(-3.0, 3.0)],
                    pe=lambda anp, p, x: p[0] * anp.cos(p[1] * x + p[2]),
                    f=lambda p, x: p[0] * np.cos(p[1] * x + p[2]),
@@ -428,23 +485,35 @@ QUAD = {
                    df=lambda p, x: [np.cos(p[1] * x + p[2]), -p[0] * x * np.sin(p[1] * x + p[2]), -p[0] * np.sin(p[1] * x + p[2])],
                    G=lambda p, x: [np.sin(p[1] * x + p[2]) / p[1],
                                    -p[0] / p[1] ** 2 * np.sin(p[1] * x + p[2]) + p[0] * x / p[1] * np.cos(p[1] * x + p[2]),
-                                   p[0] / p[1] * np.cos(p[1] * x + p[2])]),
+                                   p[0] / p[1] * np.cos(p[1] * x + p[2])],
+                   Bf=lambda p, x: abs(p[0]),
+                   BF=lambda p, x: abs(p[0] / p[1]),
+                   BG=lambda p, x: [abs(1 / p[1]), abs(p[0]) * (1 / p[1] ** 2 + abs(x / p[1])), abs(p[0] / p[1])]),
     'laurent': dict(np=3, pdom=[[(-3.0, 3.0)]] * 3, ldom=[(0.2, 3.0)],          # the integrand of the repository's own test
                     pe=lambda anp, p, x: p[0] * x + p[1] * x ** 2 - p[2] / x,
                     f=lambda p, x: p[0] * x + p[1] * x ** 2 - p[2] / x,
                     F=lambda p, x: p[0] * x ** 2 / 2 + p[1] * x ** 3 / 3 - p[2] * np.log(x),
                     df=lambda p, x: [x, x ** 2, -1.0 / x],
-                    G=lambda p, x: [x ** 2 / 2, x ** 3 / 3, -np.log(x)]),
+                    G=lambda p, x: [x ** 2 / 2, x ** 3 / 3, -np.log(x)],
+                    Bf=lambda p, x: abs(p[0] * x) + abs(p[1] * x ** 2) + abs(p[2] / x),
+                    BF=lambda p, x: abs(p[0] * x ** 2 / 2) + abs(p[1] * x ** 3 / 3) + abs(p[2]) * (abs(np.log(x)) + 1e-2),
+                    BG=lambda p, x: [x ** 2 / 2, abs(x ** 3 / 3), abs(np.log(x)) + 1e-2]),
     'sinhdoc': dict(np=3, pdom=[[(-3.0, 3.0)]] * 3, ldom=[(-3.0, 3.0)],         # the integrand of the docstring
                     pe=lambda anp, p, x: p[0] + p[1] * x + p[2] * anp.sinh(x),
                     f=lambda p, x: p[0] + p[1] * x + p[2] * np.sinh(x),
                     F=lambda p, x: p[0] * x + p[1] * x ** 2 / 2 + p[2] * np.cosh(x),
                     df=lambda p, x: [1.0, x, np.sinh(x)],
-                    G=lambda p, x: [x, x ** 2 / 2, np.cosh(x)]),
+                    G=lambda p, x: [x, x ** 2 / 2, np.cosh(x)],
+                    Bf=lambda p, x: abs(p[0]) + abs(p[1] * x) + abs(p[2] * np.sinh(x)),
+                    BF=lambda p, x: abs(p[0] * x) + abs(p[1] * x ** 2 / 2) + abs(p[2] * np.cosh(x)),
+                    BG=lambda p, x: [abs(x), x ** 2 / 2, np.cosh(x)]),
     # parameter-free integrands (only the limits can be observables)
-    'nopar_sq': _nopar(lambda anp, p, x: x ** 2, lambda p, x: x ** 2, lambda p, x: x ** 3 / 3),
-    'nopar_exp': _nopar(lambda anp, p, x: anp.exp(-x), lambda p, x: np.exp(-x), lambda p, x: -np.exp(-x)),
-    'nopar_sin': _nopar(lambda anp, p, x: anp.sin(2 * x), lambda p, x: np.sin(2 * x), lambda p, x: -np.cos(2 * x) / 2),
+    'nopar_sq': _nopar(lambda anp, p, x: x ** 2, lambda p, x: x ** 2, lambda p, x: x ** 3 / 3,
+                       lambda p, x: x ** 2, lambda p, x: abs(x ** 3 / 3)),
+    'nopar_exp': _nopar(lambda anp, p, x: anp.exp(-x), lambda p, x: np.exp(-x), lambda p, x: -np.exp(-x),
+                        lambda p, x: np.exp(-x), lambda p, x: np.exp(-x)),
+    'nopar_sin': _nopar(lambda anp, p, x: anp.sin(2 * x), lambda p, x: np.sin(2 * x), lambda p, x: -np.cos(2 * x) / 2,
+                        lambda p, x: 1.0, lambda p, x: 0.5),
 }
 NOPAR = [k for k in QUAD if k.startswith('nopar')]
 
@@ -469,6 +538,8 @@ def _selfcheck_quad():
                 assert abs((fam['F'](pp, x) - fam['F'](pm, x)) / (2 * h) - fam['G'](p, x)[i]) <= 1e-7 * sc, (name, 'G', i)
                 assert abs((fam['f'](pp, x) - fam['f'](pm, x)) / (2 * h) - fam['df'](p, x)[i]) <= 1e-7 * sc, (name, 'df', i)
                 assert abs((fam['G'](p, x + h)[i] - fam['G'](p, x - h)[i]) / (2 * h) - fam['df'](p, x)[i]) <= 1e-7 * sc, (name, 'dG', i)
+                assert abs(fam['G'](p, x)[i]) <= fam['BG'](p, x)[i] * (1 + 1e-12), (name, 'BG', i)
+            assert abs(fam['f'](p, x)) <= fam['Bf'](p, x) * (1 + 1e-12) and abs(fam['F'](p, x)) <= fam['BF'](p, x) * (1 + 1e-12), (name, 'Bf/BF')
 
 
 _selfcheck_quad()
@@ -485,7 +556,7 @@ def num(v):
 
 def maybe_int(draw, v, dom):
     """plain arguments are sometimes handed over as Python ints"""
-    if draw(st.integers(0, 3)) == 0:
+    if draw(chance(4)):
         w = int(round(v))
         if in_dom(w, dom):
             return w
@@ -529,6 +600,8 @@ def quad_case(draw, tier):
         dummy = True     # known finding: empty parameter list + observable limit; searched with an unused plain parameter instead
     vals = [draw(dom_value(dom)) for dom in fam['pdom']] + [draw(dom_value(fam['ldom'])), draw(dom_value(fam['ldom']))]
     doms = list(fam['pdom']) + [fam['ldom'], fam['ldom']]
+    if vals[n] == vals[n + 1] and not draw(chance(8)):        # coinciding limits only now and then
+        vals[n + 1] = vals[n] + 0.75 if in_dom(vals[n] + 0.75, fam['ldom']) else vals[n] - 0.75
     mask = [draw(st.booleans()) for _ in range(n + 2)]
     infl = []
     if fam.get('inf'):
@@ -541,7 +614,7 @@ def quad_case(draw, tier):
     if not any(mask):
         mask[draw(st.sampled_from(cand))] = True
     alias = None
-    if draw(st.integers(0, 6)) == 0 and len(cand) >= 2:
+    if draw(chance(7)) and len(cand) >= 2:
         s = draw(st.sampled_from(cand[:-1]))
         d = draw(st.sampled_from([i for i in cand if i > s]))
         if in_dom(vals[s], doms[d]):
@@ -576,7 +649,7 @@ def quad_oracle(spec):
     mask, alias = spec['mask'], spec.get('alias')
     doms = list(fam['pdom']) + [fam['ldom'], fam['ldom']]
     idx = [i for i in range(n + 2) if mask[i] and not (alias and i == alias[1])]
-    obs, labs = make_operands(spec['ops'], [spec['vals'][i] for i in idx], spec['raw'], [doms[i] for i in idx])
+    obs, labs = make_operands(spec['ops'], [spec['vals'][i] for i in idx], spec['raw'], arg_doms(doms, idx, alias))
     args = [num(v) for v in spec['vals']]
     for i, o in zip(idx, obs):
         args[i] = o
@@ -612,12 +685,19 @@ def quad_oracle(spec):
         return fn(pv, x)
     Fa, Fb = float(at(fam['F'], a)), float(at(fam['F'], b))
     want = Fb - Fa
+    infinite = math.isinf(a) or math.isinf(b)
+
+    def asked(exact):
+        # On infinite ranges QUADPACK's error estimate is not a bound (measured: int_0^inf exp(-1.459 x) dx is off by
+        # 1.5e-8 with a reported 7e-10); what can be relied on there is the accuracy that was asked for.
+        return 10 * max(kw.get('epsabs', 1.49e-8), kw.get('epsrel', 1.49e-8) * abs(exact)) if infinite else 0.0
     _, e0 = sq(squad, lambda x: fam['f'](pv, x), a, b, kw)
     s0, _ = sq(squad, lambda x: abs(fam['f'](pv, x)), min(a, b), max(a, b), {})
-    tol = 10 * e0 + 1e-11 * s0 + 1e-14 * (abs(Fa) + abs(Fb))
+    tol = 10 * e0 + 1e-11 * s0 + 1e-14 * (float(at(fam['BF'], a)) + float(at(fam['BF'], b))) + asked(want)
     require(abs(float(res.value) - want) <= tol, what + ': value of the integral differs from F(b) - F(a)', float(res.value), want,
             'tolerance %.3g' % tol, {'p': pv, 'a': a, 'b': b})
     Ga, Gb = at(fam['G'], a), at(fam['G'], b)
+    BGa, BGb = at(fam['BG'], a), at(fam['BG'], b)
     ops, grad, err = [], [], []
     for i in range(n):
         if isobs[i]:
@@ -625,15 +705,15 @@ def quad_oracle(spec):
             si, _ = sq(squad, lambda x, i=i: abs(fam['df'](pv, x)[i]), min(a, b), max(a, b), {})
             ops.append(args[i])
             grad.append(float(Gb[i]) - float(Ga[i]))
-            err.append(10 * ei + 1e-11 * si + 1e-14 * (abs(Ga[i]) + abs(Gb[i])))
+            err.append(10 * ei + 1e-11 * si + 1e-14 * (float(BGa[i]) + float(BGb[i])) + asked(grad[-1]))
     if isobs[n]:
         ops.append(args[n])
         grad.append(-float(fam['f'](pv, a)))
-        err.append(1e-13 * abs(grad[-1]))
+        err.append(1e-13 * float(fam['Bf'](pv, a)))
     if isobs[n + 1]:
         ops.append(args[n + 1])
         grad.append(float(fam['f'](pv, b)))
-        err.append(1e-13 * abs(grad[-1]))
+        err.append(1e-13 * float(fam['Bf'](pv, b)))
     refs = [RefObs.from_pe(o) for o in ops]
     v = float(res.value)
     rf = combine(lambda x: v, grad, refs, value=v)           # the value was judged above with the quadrature tolerance
@@ -738,10 +818,10 @@ def scipy_oracle(spec):
 
 
 SUBS = [
-    Sub('root', root_case, root_oracle, {'quick': 200, 'thorough': 4000}, {'quick': 7, 'thorough': 16},
-        doc='find_root: root, -(df/dd)/(df/dx) propagation through RefObs.combine, explicit inverse'),
-    Sub('quad', quad_case, quad_oracle, {'quick': 200, 'thorough': 4000}, {'quick': 8, 'thorough': 16},
-        doc='integrate.quad with observable parameters / limits vs analytic antiderivative through RefObs.combine'),
-    Sub('scipy', scipy_case, scipy_oracle, {'quick': 300, 'thorough': 3000}, {'quick': 1, 'thorough': 2},
+    Sub('root', root_case, root_oracle, {'quick': 400, 'thorough': 12000}, {'quick': 7, 'thorough': 16},
+        doc='find_root: root, -(df/dd)/(df/dx) propagation through RefObs.combine, explicit inverse', max_skip_frac=0.2),
+    Sub('quad', quad_case, quad_oracle, {'quick': 400, 'thorough': 10000}, {'quick': 8, 'thorough': 16},
+        doc='integrate.quad with observable parameters / limits vs analytic antiderivative through RefObs.combine', max_skip_frac=0.2),
+    Sub('scipy', scipy_case, scipy_oracle, {'quick': 500, 'thorough': 10000}, {'quick': 1, 'thorough': 2},
         doc='integrate.quad without observables returns the tuple of scipy.integrate.quad'),
 ]
